@@ -6,8 +6,8 @@ import ast
 
 from ..cfg import CFG
 from ..interp import Hooks, explore
-from ..model import norm
-from ..values import Const, Dct, Ext, Func, Lst, Obj, tagof
+from ..model import AnalysisError, norm
+from ..values import Const, Dct, Ext, Func, Lst, Obj, Tup, tagof
 
 EXPLANATION = (
     "Typestate (acquire/release) analysis on the event CFG of the patch() generator, with exceptional edges from every "
@@ -19,9 +19,11 @@ EXPLANATION = (
 )
 RULE_TEXT = (
     "C20.a no path acquire ->(normal) ... -> exit/exceptional exit avoiding the release; C20.b the re-entry guard "
-    "dominates every acquire; C20.c standard targets present, first, mapped to fs.connect and fakes.write_pandas; C20.d "
-    "every dash option of the CLI parser takes one value (what split() assumes); C20.e a flag raised inside split()'s "
-    "scan is lowered inside it."
+    "dominates every acquire; C20.c patch() interpreted straight through twice per scenario (extras as list / string / "
+    "none, then other extras): each call patches exactly [standard targets..., its own extras...] in order, connect -> "
+    "this call's own instance, write_pandas -> the fake; C20.e split() interpreted on one canonical argv per own-option "
+    "form (none, separate value, --long=value, -sVALUE, valueless) x target kind (path, -m mod, --module=mod, -mmod) x "
+    "target arguments, result == the split implied by the parser's own option declarations."
 )
 TRUSTED = ["CPython ast", "contextlib.ExitStack.close() undoes every entered patch", "unittest.mock.patch restores the original on exit"]
 
@@ -223,73 +225,115 @@ def rule_targets(ctx):
     ctx.floor("C20.c patch() calls interpreted", n, 6)
 
 
-def rule_cli_agreement(ctx):
-    """C20.d: split() assumes every dash option is followed by its value; the parser must not define an option that
-    takes none (writer/reader agreement between the two sites; the splitting algorithm itself is not decided)."""
+def _parser_options(prog):
+    """dash options of the CLI parser: (all option strings, those of the module option, those that take no value)"""
+    fn = prog.fn("cli", "arg_parser")
+    opts, module, valueless = set(), set(), set()
+    for c in ast.walk(fn):
+        if isinstance(c, ast.Call) and isinstance(c.func, ast.Attribute) and c.func.attr == "add_argument":
+            names = [x.value for x in c.args if isinstance(x, ast.Constant) and isinstance(x.value, str) and x.value.startswith("-")]
+            if not names:
+                continue
+            opts.update(names)
+            kw = {k.arg: k.value for k in c.keywords if k.arg}
+            dest = kw.get("dest")
+            if (isinstance(dest, ast.Constant) and dest.value == "module") or "--module" in names:
+                module.update(names)
+            act, nargs = kw.get("action"), kw.get("nargs")
+            if (isinstance(act, ast.Constant) and act.value in ("store_true", "store_false", "count", "store_const", "append_const", "version", "help")) or \
+                    (isinstance(nargs, ast.Constant) and nargs.value == 0):
+                valueless.update(names)
+    return opts, module, valueless
+
+
+def _want_split(argv, opts, module, valueless=frozenset()):
+    """what fakesnow's own arguments are, by argparse's rules for one-value options (separate, --long=value, -sVALUE)
+    and for options that take no value"""
+    i = 0
+    while i < len(argv):
+        a = argv[i]
+        if a in valueless:
+            i += 1
+            continue
+        if a in module:
+            return argv[: i + 2], argv[i + 2:]
+        head = a.split("=", 1)[0]
+        attached = a.startswith("-") and not a.startswith("--") and len(a) > 2 and a[:2] in opts
+        if (a.startswith("--") and "=" in a and head in module) or (attached and a[:2] in module):
+            return argv[: i + 1], argv[i + 1:]
+        if a in opts:
+            i += 2
+            continue
+        if (a.startswith("--") and "=" in a and head in opts) or attached:
+            i += 1
+            continue
+        return argv[: i + 1], argv[i + 1:]  # the first positional is the script path
+    return argv, []
+
+
+def rule_split_forms(ctx):
+    """C20.e: split() interpreted on one canonical argument list per option form (separate value, --long=value, -sVALUE) x
+    target kind (script path, -m module) x target arguments (none, plain, looking like fakesnow's own options): fakesnow's
+    part ends with the script path / the module name, the target gets exactly the rest, in order.  Decides the forms, not
+    every argument list."""
     prog = ctx.prog
     if "cli" not in prog.modules or not prog.has_fn("cli", "split") or not prog.has_fn("cli", "arg_parser"):
         return
     m = prog.mod("cli")
-    sp = prog.fn("cli", "split")
-    ap = prog.fn("cli", "arg_parser")
-    # does split treat "-x" as "the next token is its value"?  (a flag variable set on startswith("-") and consumed by the next token)
-    assumes_value = any(isinstance(n, ast.Call) and isinstance(n.func, ast.Attribute) and n.func.attr == "startswith"
-                        and n.args and isinstance(n.args[0], ast.Constant) and n.args[0].value == "-" for n in ast.walk(sp)) and \
-        any(isinstance(n, ast.Assign) and isinstance(n.value, ast.Constant) and n.value.value is True for n in ast.walk(sp))
-    ctx.ob("C20.d", "split() treats every dash option as value-taking", assumes_value, m.loc(sp))
-    if not assumes_value:
-        return
-    opts = 0
-    for c in ast.walk(ap):
-        if isinstance(c, ast.Call) and isinstance(c.func, ast.Attribute) and c.func.attr == "add_argument":
-            names = [a.value for a in c.args if isinstance(a, ast.Constant) and isinstance(a.value, str)]
-            if not any(x.startswith("-") for x in names):
-                continue
-            opts += 1
-            kw = {k.arg: k.value for k in c.keywords if k.arg}
-            act = kw.get("action")
-            nargs = kw.get("nargs")
-            valueless = (isinstance(act, ast.Constant) and act.value in ("store_true", "store_false", "count", "store_const", "append_const", "version", "help")) or \
-                (isinstance(nargs, ast.Constant) and nargs.value in (0, "?", "*"))
-            ctx.ob("C20.d", f"option {names} takes exactly one value, as split() assumes", not valueless, m.loc(c))
-            if valueless:
-                ctx.violation("C20.d", "cli", "arg_parser", f"option {'/'.join(names)} takes no value", m.loc(c),
-                              f"the option {'/'.join(names)} takes no value, but split() assumes every dash option is followed by its value: "
-                              f"`fakesnow {names[0]} script.py a b` takes script.py for the option's value and hands the target the wrong arguments")
-    ctx.floor("fakesnow command line options", opts, 2)
-
-
-def rule_split_flag_state(ctx):
-    """C20.e: a boolean state of split() that is raised inside its scan is lowered inside it too ("the previous token
-    was an option" must end with the token that is its value) — otherwise every later positional is taken for a value."""
-    prog = ctx.prog
-    if "cli" not in prog.modules or not prog.has_fn("cli", "split"):
-        return
-    m = prog.mod("cli")
     fn = prog.fn("cli", "split")
-    loops = [l for l in ast.walk(fn) if isinstance(l, (ast.For, ast.While))]
+    loc = m.loc(fn)
+    opts, module, valueless = _parser_options(prog)
+    if not opts or not module:
+        raise AnalysisError("cli: the parser's dash options / module option were not found")
+    valued = sorted(opts - module - valueless)
+    short = next((o for o in valued if not o.startswith("--")), None)
+    long_ = next((o for o in valued if o.startswith("--")), None)
+    mshort = next((o for o in sorted(module) if not o.startswith("--")), None)
+    mlong = next((o for o in sorted(module) if o.startswith("--")), None)
+    own_forms = [[]]
+    if short:
+        own_forms += [[short, "V"], [short + "V"]]
+    if long_:
+        own_forms += [[long_, "V"], [long_ + "=V"]]
+    for o in sorted(valueless)[:2]:  # an option without a value is complete by itself (C20.d: split()/parser agreement)
+        own_forms += [[o], [o, short, "V"]] if short else [[o]]
+    targets = [["script.py"]]
+    if mshort:
+        targets += [[mshort, "mod"], [mshort + "mod"]]
+    if mlong:
+        targets += [[mlong, "mod"], [mlong + "=mod"]]
+    tails = [[], ["a", "b"], [short or "-x", "Y", mshort or "-m", "z"]]
     n = 0
-    for lp in loops:
-        raised, lowered = set(), set()
-        for s_ in ast.walk(lp):
-            if isinstance(s_, ast.Assign) and isinstance(s_.value, ast.Constant) and isinstance(s_.value.value, bool):
-                for t in s_.targets:
-                    if isinstance(t, ast.Name):
-                        (raised if s_.value.value else lowered).add(t.id)
-        for v in sorted(raised):
-            n += 1
-            ok = v in lowered
-            ctx.ob("C20.e", f"split(): state `{v}` set inside the scan is also cleared inside it", ok, m.loc(lp))
-            if not ok:
-                ctx.violation("C20.e", "cli", "split", f"state `{v}` never cleared", m.loc(lp),
-                              f"`{v}` is set to True while scanning the arguments but never reset inside the scan: after one value-taking option "
-                              f"(`-d dir`) the script path no longer ends fakesnow's own arguments and the target receives none of its arguments")
-    ctx.floor("split() state variables", n, 1)
+    for own in own_forms:
+        for tgt in targets:
+            for tail in tails:
+                argv = own + tgt + tail
+                want = _want_split(argv, opts, module, valueless)
+
+                def run(I, argv=argv):
+                    return I.call(I.global_lookup("cli", "split"), [Lst([Const(x) for x in argv])], {}, None)
+
+                for p in explore(prog, Hooks, run, max_paths=8):
+                    n += 1
+                    got = None
+                    if p.outcome == "return" and isinstance(p.value, (Tup, Lst)) and len(p.value.items) == 2 and all(
+                            isinstance(x, (Lst, Tup)) and all(isinstance(y, Const) for y in x.items) for x in p.value.items):
+                        got = tuple([y.v for y in x.items] for x in p.value.items)
+                    ok = got is not None and (got[0], got[1]) == (want[0], want[1])
+                    ctx.ob("C20.e", f"split({argv}) == ({want[0]}, {want[1]})", ok, loc, "" if ok else str(got))
+                    if not ok:
+                        form = f"{own[0]} takes no value" if own and own[0] in valueless else "separate value" if own and len(own) == 2 else "value attached with '='" if own and "=" in own[0] else "value attached to the short option" if own else "no own option"
+                        ctx.violation("C20.e", "cli", "split", f"own option form: {form}; target {'module' if tgt[0].startswith('-') else 'path'} "
+                                      f"{'=' if '=' in tgt[0] else 'attached' if tgt[0].startswith('-') and len(tgt) == 1 else 'separate'}", loc,
+                                      f"`fakesnow {' '.join(argv)}`: split() gives fakesnow {got[0] if got else '?'} and the target {got[1] if got else '?'}; "
+                                      f"by the parser's own option forms fakesnow's part is {want[0]} and the target's arguments are {want[1]} — the "
+                                      f"target loses (or gains) arguments")
+                    break
+    ctx.floor("C20.e split() scenarios", n, 30)
 
 
 RULES = [
-    ("C20.e", rule_split_flag_state, ("quick", "thorough")),
-    ("C20.d", rule_cli_agreement, ("quick", "thorough")),
+    ("C20.e", rule_split_forms, ("quick", "thorough")),
     ("C20.a", rule_release, ("quick", "thorough")),
     ("C20.c", rule_targets, ("quick", "thorough")),
 ]
